@@ -94,7 +94,7 @@ pub fn run_one(w: &Value) -> Result<Value, String> {
                        "attr_order": nz["order"], "tokens": [{"k": "row", "r": 0}, if i % 2 == 0 { json!({"k": "c", "r": [0, 0], "s": 1, "v": "44000"}) } else { json!({"k": "c", "r": [0, 0], "s": 1, "f": "A2+1", "v": "44000"}) }, {"k": "rowend"}]})
             }).collect();
             let dn: Vec<Value> = w["names"].as_array().unwrap().iter().map(|d| { let (n, v) = defname_of(d.as_str().unwrap(), fmt); json!([n, v]) }).collect();
-            build_xlsx(&json!({"prefix": nz["prefix"], "rel_prefix": nz["relp"], "date1904": d1904, "ext_workbookpr": nz["order"] == "rev", "styles": {"cellStyleXfs": [0], "cellXfs": [0, 14]}, "sheets": sh, "defined_names": dn}))
+            build_xlsx(&json!({"prefix": nz["prefix"], "rel_prefix": nz["relp"], "date1904": d1904, "ext_workbookpr": nz["order"] == "rev", "defined_name_split": nz["prefix"] == "x", "styles": {"cellStyleXfs": [0], "cellXfs": [0, 14]}, "sheets": sh, "defined_names": dn}))
         }
         "xlsb" => {
             let mut book = xlsb::XlsbBook::default();
@@ -167,7 +167,8 @@ pub fn run_one(w: &Value) -> Result<Value, String> {
                 wb.sheets.push(biff::Sheet { name: xs, dims: None, recs: vec![rec] });
             }
             let mut s = biff::workbook_stream(&wb);
-            let st: Vec<(u8, u8)> = sheets.iter().map(|s| (s["vis"].as_u64().unwrap() as u8, match s["kind"].as_str().unwrap() { "macro" => 1, "chart" => 2, "vba" => 6, _ => 0 })).collect();
+            // hsState is the low two bits of the state byte; the unused high bits (set when `high`) must be ignored
+            let st: Vec<(u8, u8)> = sheets.iter().enumerate().map(|(i, s)| (s["vis"].as_u64().unwrap() as u8 | if high { [0x40u8, 0xC0, 0x80][i % 3] } else { 0 }, match s["kind"].as_str().unwrap() { "macro" => 1, "chart" => 2, "vba" => 6, _ => 0 })).collect();
             patch_boundsheets(&mut s, &st);
             crate::build::cfb::simple_cfb(&[("Workbook", &s)])
         }
